@@ -7,7 +7,7 @@ CONSTANTS
   EnableRestart = FALSE
   EnableDebugWrites = FALSE
   SrcVals = {0, 255}
-  Dts = {2, 5}
+  Dts = {2}
   CfgSel = "fb"
 VIEW View
 CHECK_DEADLOCK FALSE
